@@ -85,7 +85,10 @@ def xerrStr : XErr → String
 def asGArg (j : Json) : R GArg := do
   match j.getStr? with
   | .ok s => if s.startsWith "sym:" then pure (.sym (s.drop 4).toString) else pure (.expr s)
-  | .error _ => pure (.num (← asRat j))
+  | .error _ =>
+    match j.getObjVal? "arr" with
+    | .ok v => pure (.arr (← asRatList v))
+    | .error _ => pure (.num (← asRat j))
 
 def jLCmd : LCmd → Json
   | .gate c r => jarr [Json.str c, natList r]
